@@ -56,9 +56,10 @@ func loadAllCheap(data []byte) string {
 // splitReader hands out the bytes in pieces of the given sizes (cycled): short reads, as a socket or a buffer
 // boundary produces them.
 type splitReader struct {
-	data  []byte
-	sizes []int
-	k     int
+	data        []byte
+	sizes       []int
+	k           int
+	eofWithData bool // the final piece is returned together with io.EOF (legal for an io.Reader)
 }
 
 func (s *splitReader) Read(p []byte) (int, error) {
@@ -75,6 +76,9 @@ func (s *splitReader) Read(p []byte) (int, error) {
 	}
 	copy(p, s.data[:n])
 	s.data = s.data[n:]
+	if len(s.data) == 0 && s.eofWithData {
+		return n, io.EOF
+	}
 	return n, nil
 }
 
@@ -85,7 +89,7 @@ func loadAllSplit(data []byte, sizes []int, buffered int) (how string) {
 			how = "panic"
 		}
 	}()
-	var src io.Reader = &splitReader{data: data, sizes: sizes}
+	var src io.Reader = &splitReader{data: data, sizes: sizes, eofWithData: buffered < 0}
 	if buffered > 0 {
 		src = bufio.NewReaderSize(src, buffered)
 	}
@@ -187,7 +191,7 @@ func c11rdbChild(raw json.RawMessage, scratch string) {
 					name  string
 					sizes []int
 					buf   int
-				}{{"1-byte", []int{1}, 0}, {"1,2,3,7", []int{1, 2, 3, 7}, 0}, {"halves", []int{(len(data) + 1) / 2}, 0}, {"bufio16-over-5", []int{5}, 16}, {"bufio64-over-1,100", []int{1, 100}, 64}} {
+				}{{"1-byte", []int{1}, 0}, {"1,2,3,7", []int{1, 2, 3, 7}, 0}, {"halves", []int{(len(data) + 1) / 2}, 0}, {"bufio16-over-5", []int{5}, 16}, {"bufio64-over-1,100", []int{1, 100}, 64}, {"last-bytes-with-EOF", []int{7, 64}, -1}, {"whole-file-with-EOF", []int{1 << 20}, -1}} {
 					r.Count("rdb_intact_split_deliveries", 1)
 					if how := loadAllSplit(data, sh.sizes, sh.buf); how != "" {
 						r.Violationf("C11|rdb|outcome=intact-rejected-when-split|delivery="+sh.name, cs, "intact RDB (version %d, %d bytes) delivered in pieces (%s) rejected at %s", f.Version, len(data), sh.name, how)
